@@ -141,3 +141,62 @@ func runIDs(seed uint64, n int) core.Result {
 	core.Count("ids")
 	return core.Result{SkipModel: true, Impl: fmt.Sprintf("ids ok %d", n)}
 }
+
+// bigx <n> <seed>: ExportAndReset on a log with MANY completed entries (sizes around powers of two):
+// n requests are logged, about 9 in 10 of them get their response, then ExportAndReset must return
+// EXACTLY the completed ones in arrival order, a following Export exactly the pending ones, and a second
+// ExportAndReset nothing. Oracle-only: the Lean heap model is quadratic in the log size.
+func runBigX(n int, seed uint64) core.Result {
+	r := core.NewRand(seed)
+	l := har.NewLogger()
+	var done, pending []idEnt
+	for i := 0; i < n; i++ {
+		id := "e" + strconv.Itoa(i)
+		q, _ := http.NewRequest("GET", "http://h.example/?t="+strconv.Itoa(i), nil)
+		if err := l.RecordRequest(id, q); err != nil {
+			return core.Result{SkipModel: true, Impl: "bigx error", Sig: "c17:bigx:req", Fail: err.Error()}
+		}
+		if r.Chance(9, 10) {
+			res := proxyutil.NewResponse(200, bytes.NewReader([]byte("b")), q)
+			res.StatusCode = 200 + i%300
+			if err := l.RecordResponse(id, res); err != nil {
+				return core.Result{SkipModel: true, Impl: "bigx error", Sig: "c17:bigx:res", Fail: err.Error()}
+			}
+			done = append(done, idEnt{id, i, i % 300})
+		} else {
+			pending = append(pending, idEnt{id, i, -1})
+		}
+	}
+	cmp := func(what string, got, want []idEnt) string {
+		if len(got) != len(want) {
+			return fmt.Sprintf("%s returned %d entries, expected %d (log of %d requests, %d completed, %d pending)", what, len(got), len(want), n, len(done), len(pending))
+		}
+		for i := range got {
+			if got[i] != want[i] {
+				return fmt.Sprintf("%s: entry %d is %v, expected %v", what, i, got[i], want[i])
+			}
+		}
+		return ""
+	}
+	got, bad := readIDs(l.ExportAndReset())
+	if bad == "" {
+		bad = cmp("ExportAndReset", got, done)
+	}
+	if bad == "" {
+		got, bad = readIDs(l.Export())
+		if bad == "" {
+			bad = cmp("Export after ExportAndReset", got, pending)
+		}
+	}
+	if bad == "" {
+		got, bad = readIDs(l.ExportAndReset())
+		if bad == "" {
+			bad = cmp("second ExportAndReset", got, nil)
+		}
+	}
+	core.Count("bigx")
+	if bad != "" {
+		return core.Result{SkipModel: true, Impl: "bigx differs", Sig: "c17:bigx:xreset", Fail: bad}
+	}
+	return core.Result{SkipModel: true, Impl: fmt.Sprintf("bigx ok %d", n)}
+}
